@@ -285,6 +285,44 @@ func checkMapPort(c *Ctx, rp *packages.Package) {
 		}
 	}
 
+	// evacuate: the X/Y destination of an entry whose key is not equal to itself (NaN) is taken from the OLD
+	// tophash - the iterator makes the same choice from the same byte - before a fresh tophash is drawn
+	if fd := findFunc(rp, "evacuate"); fd != nil {
+		c.nfuncs++
+		var useIdx, topIdx = -1, -1
+		var blk *ast.BlockStmt
+		ast.Inspect(fd.Body, func(n ast.Node) bool {
+			b, ok := n.(*ast.BlockStmt)
+			if !ok {
+				return true
+			}
+			u, t := -1, -1
+			for i, st := range b.List {
+				as, ok := st.(*ast.AssignStmt)
+				if !ok || len(as.Lhs) != 1 || len(as.Rhs) != 1 {
+					continue
+				}
+				l, r := exprStr(as.Lhs[0]), strings.ReplaceAll(exprStr(as.Rhs[0]), " ", "")
+				if l == "useY" && r == "top&1" {
+					u = i
+				}
+				if l == "top" && strings.HasPrefix(r, "tophash(") {
+					t = i
+				}
+			}
+			if u >= 0 && t >= 0 {
+				useIdx, topIdx, blk = u, t, b
+			}
+			return true
+		})
+		if blk == nil {
+			c.Undecided("R06.8", "runtime.evacuate NaN keys keep the iterator's X/Y choice", fd.Pos(), "`useY = top & 1` / `top = tophash(hash)` pair not found")
+		} else {
+			c.Check(useIdx < topIdx, "R06.8", "runtime.evacuate NaN keys keep the iterator's X/Y choice", blk.Pos(), "useY = top & 1 before top = tophash(hash)",
+				"the destination half of a NaN-keyed entry is taken from the freshly drawn tophash instead of the old one: an iterator that is running while the map grows yields such an entry twice or not at all")
+		}
+	}
+
 	// ---------------- R06.9
 	for _, fn := range []string{"interhash", "nilinterhash"} {
 		fd := findFunc(rp, fn)
@@ -347,4 +385,9 @@ func init() {
 		New: "\tbucket := hash & bucketMask(h.B)\n\tb := (*bmap)(add(h.buckets, bucket*uintptr(t.BucketSize)))\n\tbOrig := b", Expect: "R06.8 runtime.mapdelete evacuates before selecting the bucket"})
 	addMutant(Mutant{Prop: "C06", Name: "delete-count-only-when-last", File: "runtime/internal/runtime/map.go",
 		Old: "\t\tnotLast:\n\t\t\th.count--", New: "\t\t\th.count--\n\t\tnotLast:", Expect: "R06.8 runtime.mapdelete updates h.count"})
+}
+
+func init() {
+	addMutant(Mutant{Prop: "C06", Name: "evacuate-nan-usey-from-new-tophash", File: "runtime/internal/runtime/map.go",
+		Old: "\t\t\t\t\t\tuseY = top & 1\n\t\t\t\t\t\ttop = tophash(hash)", New: "\t\t\t\t\t\ttop = tophash(hash)\n\t\t\t\t\t\tuseY = top & 1", Expect: "R06.8 runtime.evacuate NaN keys"})
 }
